@@ -61,6 +61,15 @@ func c04Scenarios(tier string) []CScenario {
 		CScenario{Name: "given-up-during-prop-vs-prop", Threads: [][]CReq{{withCtx(prop1(0, 5), "ext")}, {cancelOf(0, 0)}, {prop1(0, 6)}}},
 		CScenario{Name: "given-up-during-batch-vs-single", Threads: [][]CReq{{withCtx(attsN(k01, 0, 1), "ext")}, {cancelOf(0, 0)}, {att1(1, 0, 2)}}},
 	)
+	// A batch one of whose entries is not a valid attestation (source beyond target) and is refused: what the batch does for
+	// that key must still happen inside the batch's turn (the batch path writes back the state of every entry).
+	badFirst := CReq{Kind: "atts", Keys: []int{0, 1}, S: []uint64{3, 0}, T: []uint64{1, 1}}
+	badLast := CReq{Kind: "atts", Keys: []int{1, 0}, S: []uint64{0, 3}, T: []uint64{1, 1}}
+	sc = append(sc,
+		CScenario{Name: "batch-with-invalid-entry-vs-single-on-its-key", Threads: [][]CReq{{badFirst}, {att1(0, 0, 1)}}},
+		CScenario{Name: "batch-with-invalid-last-entry-vs-two-singles-on-its-key", Threads: [][]CReq{{badLast}, {att1(0, 0, 1), att1(0, 0, 1)}}},
+		CScenario{Name: "batch-with-invalid-entry-vs-single-vs-single", Threads: [][]CReq{{badFirst}, {att1(0, 0, 1)}, {att1(1, 0, 1)}}},
+	)
 	// A batch far larger than anything else here (an implementation may treat large batches differently, and any
 	// per-key structure of fixed size is overrun) against single requests on keys from its middle and its end.
 	sc = append(sc,
